@@ -196,6 +196,7 @@ def install():
             return item
 
     cs.PcfgQueue = RecordingQueue
+    _INSTALLED.append(RecordingQueue)
     orig_create = pg.PcfgGrammar.create_guesses
 
     def create_guesses(self, pt, is_honeyword=False, limit=None):
@@ -291,6 +292,11 @@ def run_main(argv, ctx, threading_obj=None, input_fn=None, out=None, keep_err=Fa
     r.lines = guesser.split_lines(r.stdout)
     r.ctx = ctx
     return r
+
+
+def recording_queue_class():
+    install()
+    return _INSTALLED[1]
 
 
 def emitted_preterminals(ctx):
